@@ -4,6 +4,7 @@ import PyAirtouch.Model.SockValidate
 import PyAirtouch.Model.Heartbeat
 import PyAirtouch.Model.Codecs
 import PyAirtouch.Model.CodecsWF
+import PyAirtouch.Model.Discovery
 /-! Line-protocol driver over the *model* (Gen + Model). One request per line, one answer per line. -/
 open PyAirtouch PyAirtouch.Util PyAirtouch.Model
 
@@ -29,6 +30,30 @@ def answerPure (ws : List String) : String :=
     match g.toNat?, (len.splitOn ":").mapM String.toNat?, parseHex h with
     | some g, some len, some bs => Model.Codecs.decCmd g key len bs
     | _, _, _ => "bad-op"
+  | "disc" :: g :: arrivals =>
+    let parseA (w : String) : Option (Nat × List Nat) :=
+      match w.splitOn ":" with
+      | [t, h] => do pure ((← t.toNat?), (← parseHex h))
+      | _ => none
+    match g.toNat?, arrivals.mapM parseA with
+    | some g, some arr =>
+      let c := if g = 4 then Model.Discovery.cfg4 else Model.Discovery.cfg5
+      let (sent, ret, rs) := Model.Discovery.search c arr
+      let showR (r : Model.Discovery.Response) : String :=
+        let cl := Model.Discovery.clientOf r
+        s!"R(id={toHex r.airtouch_id},name={match r.name with | some n => toHex n | none => "None"},serial={toHex r.serial},host={toHex r.host},port={cl.port},cname={toHex cl.name})"
+      s!"sent={sent} ret={ret} resp=[{",".intercalate (rs.map showR)}]"
+    | _, _ => "bad-op"
+  | ["discone", g, h] =>
+    match g.toNat?, parseHex h with
+    | some g, some d =>
+      let c := if g = 4 then Model.Discovery.cfg4 else Model.Discovery.cfg5
+      match Model.Discovery.received c d with
+      | .ignored => "ignored"
+      | .added _ => "added"
+      | .decodeErrorLogged => "DecodeError"
+      | .raised e => "raised:" ++ e.name
+    | _, _ => "bad-op"
   | ["wf", g, key, len, h] =>
     match g.toNat?, (len.splitOn ":").mapM String.toNat?, parseHex h with
     | some g, some len, some bs => Model.Codecs.wfCmd g key len bs
